@@ -340,6 +340,19 @@ Section Control.
     exec_rules U step enter e fuel (r :: rules) i done (true :: fl) u s = LCont u1 s1 (rev (true :: done) ++ fl).
   Proof. intros Hk HR. apply exec_rules_skip. unfold eval_pat, run_pat. rewrite Hk, HR. reflexivity. Qed.
 
+  (* nextfile at the two range sites: as next, and the rest of the current file is dropped *)
+  Lemma exec_rules_range_start_nextfile fuel r rules i done fl u s u1 s1 :
+    rk r = PRange ->
+    run U step e fuel (enter (BPat i false) u) s = ROk ONextfile u1 s1 ->
+    exec_rules U step enter e fuel (r :: rules) i done (false :: fl) u s = LCont u1 (drop_file s1) (rev (false :: done) ++ fl).
+  Proof. intros Hk HR. apply exec_rules_skip. unfold eval_pat, run_pat. rewrite Hk, HR. reflexivity. Qed.
+
+  Lemma exec_rules_range_stop_nextfile fuel r rules i done fl u s u1 s1 :
+    rk r = PRange ->
+    run U step e fuel (enter (BPat i true) u) s = ROk ONextfile u1 s1 ->
+    exec_rules U step enter e fuel (r :: rules) i done (true :: fl) u s = LCont u1 (drop_file s1) (rev (true :: done) ++ fl).
+  Proof. intros Hk HR. apply exec_rules_skip. unfold eval_pat, run_pat. rewrite Hk, HR. reflexivity. Qed.
+
   (* after nextfile the rest of the current file is out of the plan: the next record comes from the next operand *)
   Lemma drop_file_plan s : plan e (drop_file s) = planF e (argv s) (argc s) (idx s) (had s) (stdin s).
   Proof.
